@@ -33,6 +33,9 @@ from typing import Any, Dict, Iterator, List, Optional, Tuple
 
 VERIF = os.path.dirname(os.path.dirname(os.path.abspath(__file__)))
 PYTHON = sys.executable
+# where evidence/ and replays/ are written (redirected by the self-tests so that runs against
+# mutated scratch copies never overwrite the real evidence)
+OUT = os.environ.get("VERIF_OUT", VERIF)
 
 
 def base_seed() -> int:
@@ -351,7 +354,7 @@ def run_check(engine_name: str, tier: str, runs_override: Optional[int] = None,
                                     budget_s=float(cfg.get("minimise_budget_s", 60)))
         else:
             n_exec = 0
-        path = os.path.join(VERIF, "replays", prop, f"{engine_name}-{seed}-{run}-"
+        path = os.path.join(OUT, "replays", prop, f"{engine_name}-{seed}-{run}-"
                             f"{hashlib.sha256(cls.encode()).hexdigest()[:8]}.json")
         write_json(path, {"engine": engine_name, "property": prop, "expect": [prop, cls],
                           "detail": occ["v"].get("detail", ""), "seed": seed, "run": run,
@@ -416,7 +419,7 @@ def run_check(engine_name: str, tier: str, runs_override: Optional[int] = None,
         err = validate_evidence(ev)
         if err is not None:
             total["harness_errors"].append(f"evidence for {prop} does not validate: {err}")
-        write_json(os.path.join(VERIF, "evidence", f"{prop}.json"), ev)
+        write_json(os.path.join(OUT, "evidence", f"{prop}.json"), ev)
 
     print(f"[{engine_name}] runs={total['runs']} distinct={len(total['distinct'])} "
           f"violating_classes={len(by_class)} reported={len(reported)} "
